@@ -19,6 +19,7 @@ type c08Call struct {
 	Shape string `json:"shape"`
 	Len   int    `json:"len"`
 	Salt  int    `json:"salt"`
+	Bytes []int  `json:"bytes"` // shape "raw": the input itself (strings taken from the repository's tests)
 }
 
 type c08Case struct {
@@ -71,7 +72,15 @@ func runC08(raw json.RawMessage, w *Writer) {
 	// overwrites the memory of the previous ones with plausible data, not only with the scribble byte)
 	arena := make([]byte, 0)
 	for k, call := range c.Calls {
-		fresh := buildInput(call.Shape, call.Len, call.Salt)
+		var fresh []byte
+		if call.Shape == "raw" {
+			fresh = make([]byte, len(call.Bytes))
+			for i, v := range call.Bytes {
+				fresh[i] = byte(v)
+			}
+		} else {
+			fresh = buildInput(call.Shape, call.Len, call.Salt)
+		}
 		input := fresh
 		if fresh != nil && k%2 == 1 || (fresh != nil && len(c.Calls) > 1 && k > 0) {
 			if cap(arena) < len(fresh) {
